@@ -182,11 +182,23 @@ Fixpoint transfer_all (fuel : nat) (r : rstate) (ls : list lit) : init_res :=
     end
   end.
 
-(* the first three loops of [initialize]: constant, inputs, latch states *)
+(* the second loop of [initialize]: every input gets the next code *)
 Fixpoint map_fresh (m : litmap) (last : N) (ls : list lit) : litmap * N :=
   match ls with
   | [] => (m, last)
   | l :: rest => map_fresh (lm_insert m l (last + 2)) (last + 2) rest
+  end.
+
+(* the third loop of [initialize]: a latch whose state literal (in either polarity) is in the
+   definition table, or whose variable already has a lit_map entry, is rejected; otherwise it
+   gets the next code *)
+Fixpoint latches_fresh (defs : defs_t) (m : litmap) (last : N) (ls : list lit) : res (litmap * N) :=
+  match ls with
+  | [] => ROk (m, last)
+  | s :: rest =>
+    if defs_contains defs s || defs_contains defs (lneg s) || lm_contains m s
+    then RErr (LitAlreadyDefined s)
+    else latches_fresh defs (lm_insert m s (last + 2)) (last + 2) rest
   end.
 
 (* the literals handed to [transfer] by [initialize], in order *)
@@ -196,11 +208,14 @@ Definition roots (cfg : config) (a : aig) : list lit :=
   ++ a_outputs a ++ a_bad a ++ a_constraints a ++ a_fairness a
   ++ concat (a_justice a).
 
-Definition init_state (cfg : config) (defs : defs_t) (a : aig) : rstate :=
+(* the first three loops of [initialize]: constant, inputs, latch states *)
+Definition init_state (cfg : config) (defs : defs_t) (a : aig) : res rstate :=
   let m0 := lm_insert ∅ 0 0 in
   let '(m1, c1) := map_fresh m0 0 (a_inputs a) in
-  let '(m2, c2) := map_fresh m1 c1 (map l_state (a_latches a)) in
-  RState cfg defs m2 c2 [] [] ∅.
+  match latches_fresh defs m1 c1 (map l_state (a_latches a)) with
+  | ROk (m2, c2) => ROk (RState cfg defs m2 c2 [] [] ∅)
+  | RErr e => RErr e
+  end.
 
 (* enough for every run, whatever the graph (RenumberTerm.renumber_terminates); a run that ends
    in [Ok] needs at most 7 steps per gate (RenumberProofs.renumber_terminates_acyclic) *)
@@ -210,7 +225,11 @@ Definition transfer_fuel (a : aig) : nat := 32 * (length (a_gates a) + 2).
 Definition renumber_new (cfg : config) (a : aig) : init_res :=
   match lit_defs a with
   | RErr e => IErr e
-  | ROk defs => transfer_all (transfer_fuel a) (init_state cfg defs a) (roots cfg a)
+  | ROk defs =>
+    match init_state cfg defs a with
+    | RErr e => IErr e
+    | ROk r0 => transfer_all (transfer_fuel a) r0 (roots cfg a)
+    end
   end.
 
 Inductive rn_res :=
